@@ -15,7 +15,7 @@ use crate::core::libtx::secp_ser;
 use crate::libwallet::slate_versions::ser as dalek_ser;
 use crate::libwallet::Error;
 use crate::util::secp::key::{PublicKey, SecretKey};
-use crate::util::{from_hex, ToHex};
+use crate::util::ToHex;
 use ed25519_dalek::SecretKey as DalekSecretKey;
 
 use base64;
@@ -124,7 +124,7 @@ impl EncryptedBody {
 				"EncryptedBody Dec: Encrypted request contains invalid Base64".to_string(),
 			)
 		})?;
-		let nonce = from_hex(&self.nonce)
+		let nonce = dalek_ser::from_hex(&self.nonce)
 			.map_err(|_| Error::APIEncryption("EncryptedBody Dec: Invalid Nonce".to_string()))?;
 		if nonce.len() < 12 {
 			return Err(Error::APIEncryption(
